@@ -5,6 +5,8 @@ Driver handlers for property C15.
 
 * `c15.names` — predicted write list (paths as written) of a run and the predicted collisions with their cause
 * `c15.spec`  — "no path with two different digests" on the implementation's write log
+* `c15.anon`  — the synthetic names of inline function types given by their *written* signatures, and for every pair
+                why they share / must not share a name (`anonCause`)
 -/
 namespace Pydjinni.Drv.C15
 open Lean Pydjinni.GenC Pydjinni.SysC Pydjinni.Drv.SysJson
@@ -31,10 +33,43 @@ def spec (req : Json) : Except String Json := do
   let log := lg.toList.map (fun e => (e.getD 0 "", e.getD 1 ""))
   pure (Json.mkObj [("holds", noOverwrite log), ("overwritten", strsJ (overwritten log))])
 
+partial def decodeTExp (j : Json) : Except String TExp := do
+  match j.getObjVal? "fn" with
+  | .ok f => pure (.fn (← f.getStr?))
+  | .error _ =>
+    let n ← j.getObjValAs? String "n"
+    let o ← j.getObjValAs? Bool "opt"
+    let a ← j.getObjVal? "args" >>= (·.getArr?)
+    pure (.ref n o (← a.toList.mapM decodeTExp))
+
+def decodeSig (j : Json) : Except String Sig := do
+  let ps ← j.getObjVal? "params" >>= (·.getArr?)
+  let params ← ps.toList.mapM (fun p => do pure (← p.getObjValAs? String "name", ← p.getObjVal? "type" >>= decodeTExp))
+  let ret ← match j.getObjVal? "ret" with
+    | .ok .null => pure none
+    | .ok r => (some <$> decodeTExp r)
+    | .error _ => pure none
+  let throws ← match j.getObjVal? "throws" with
+    | .ok .null => pure none
+    | .ok _ => (some <$> getStrs j "throws")
+    | .error _ => pure none
+  pure { targets := ← getStrs j "targets", params := params, ret := ret, throws := throws }
+
+def anon (req : Json) : Except String Json := do
+  let keys ← getStrs req "keys"
+  let ss ← req.getObjVal? "sigs" >>= (·.getArr?)
+  let sigs ← ss.toList.mapM decodeSig
+  let idx := indexed sigs
+  let pairs := idx.flatMap (fun (i, a) => idx.filterMap (fun (j, b) =>
+    if i < j then some (Json.mkObj [("i", i), ("j", j), ("sameName", anonName keys a == anonName keys b),
+      ("diff", strsJ (sigDiff keys a b)), ("cause", anonCause keys a b)]) else none))
+  pure (Json.mkObj [("names", strsJ (sigs.map (anonName keys))), ("pairs", Json.arr pairs.toArray)])
+
 def handle (op : String) (req : Json) : Except String Json :=
   match op with
   | "c15.names" => names req
   | "c15.spec" => spec req
+  | "c15.anon" => anon req
   | _ => throw s!"unknown op {op}"
 
 end Pydjinni.Drv.C15
